@@ -57,13 +57,14 @@ const (
 	CtMapRanges        // range statements over maps in the library whose order came from the tape
 	CtMapKeysUnordered // pointers in map keys first seen at a range statement (their relative order is the runtime's)
 	CtSelectOrders     // select statements in the library whose order of preference came from the tape
+	CtLibPanics        // runs cut short because a goroutine started by the library panicked
 	CtSimMicros        // simulated time covered by the run's clock, in microseconds
 	NumCounters
 )
 
 // CounterNames for evidence.
 var CounterNames = [NumCounters]string{"pool_get", "pool_get_hit", "pool_get_new", "pool_put",
-	"fault_putdrop", "fault_miss", "fault_gc", "gc_dropped_objects", "steps", "task_switches", "inner_yields", "fault_stall", "blocked_yields", "spin_breaks", "fault_clock_jump", "timers_fired", "library_goroutines_as_tasks", "finalizers_run", "library_random_draws", "library_map_ranges_ordered", "map_key_pointers_numbered_late", "library_selects_ordered", "simulated_microseconds"}
+	"fault_putdrop", "fault_miss", "fault_gc", "gc_dropped_objects", "steps", "task_switches", "inner_yields", "fault_stall", "blocked_yields", "spin_breaks", "fault_clock_jump", "timers_fired", "library_goroutines_as_tasks", "finalizers_run", "library_random_draws", "library_map_ranges_ordered", "map_key_pointers_numbered_late", "library_selects_ordered", "runs_cut_short_library_goroutine_panicked", "simulated_microseconds"}
 
 // FaultDen is the denominator of all fault rates.
 const FaultDen = 256
@@ -157,6 +158,7 @@ type Sim struct {
 	finishedRun   bool
 	Deadlocked    string // non-empty: the run was abandoned because every live task was blocked
 	RaceAborted   bool   // the run was cut short because the race detector had already reported a race in it
+	LibPanicked   bool   // the run was cut short because a goroutine started by the library panicked
 	raceBase      int
 	step0         int // step count when the current Run began
 	inRun         bool
@@ -368,6 +370,18 @@ func (s *Sim) Go(name string, fn func(*Task)) *Task {
 	return t
 }
 
+// notePanic: a goroutine the library started has panicked. In a real program
+// that ends the process; here the run is cut short without a verdict (the
+// harness also applies operations the library rejects by panicking, and a
+// variant that moves work into goroutines of its own panics there instead).
+//
+//go:norace
+func (t *Task) notePanic() {
+	if !t.root {
+		t.sim.LibPanicked = true
+	}
+}
+
 func (t *Task) main() {
 	t.g = getg()
 	raceDisable()
@@ -377,6 +391,7 @@ func (t *Task) main() {
 		defer func() {
 			if r := recover(); r != nil {
 				t.PanicVal = r
+				t.notePanic()
 			}
 		}()
 		t.fn(t)
@@ -720,6 +735,11 @@ func (s *Sim) Run(estSteps int) {
 			s.Deadlocked = "run cut short after a data race report"
 			break
 		}
+		if s.LibPanicked {
+			s.Counters[CtLibPanics]++
+			s.Deadlocked = "run cut short: a goroutine started by the library panicked"
+			break
+		}
 		if s.step-s.step0 > 8*s.MaxSteps+1000 {
 			raceEnable()
 			fatal("INFRA: simulated run does not terminate (step cap exceeded 8x)")
@@ -854,7 +874,11 @@ func (s *Sim) Run(estSteps int) {
 		}
 		t := elig[idx]
 		s.innerGap = 0
-		if s.InnerG > 0 && s.InnerBudget > 0 && !t.blocked && (s.InnerSites == 0 || s.InnerSites&(1<<uint(t.parked)) != 0) {
+		// (also for a task resumed from a cooperative wait: when the wait is
+		// over it goes on into code that wants pre-empting like any other; and
+		// always for goroutines the library started - a harness restricts inner
+		// pre-emption to the steps of its own tasks that enter the library)
+		if s.InnerG > 0 && s.InnerBudget > 0 && (!t.root || s.InnerSites == 0 || s.InnerSites&(1<<uint(t.parked)) != 0) {
 			s.innerGap = s.Sched.Draw(s.InnerG)
 		}
 		s.pointsInStep = 0
